@@ -78,7 +78,7 @@ pub fn render(recs: &[RecLayout], rng: &mut Rng) -> Rendered {
 
 pub fn gen_name(rng: &mut Rng, i: usize) -> String {
     const ALPHA: &[u8] = b"abcXYZ019_.:-|*#@+=/\\ACGT>";
-    let mut s = format!("s{i}");
+    let mut s = format!("s{i}x"); // the letter keeps names unique whatever suffix follows
     for _ in 0..rng.usize_below(6) {
         s.push(ALPHA[rng.usize_below(ALPHA.len())] as char);
     }
@@ -111,6 +111,7 @@ pub fn gen_desc(rng: &mut Rng) -> Option<String> {
 #[derive(Clone, Debug)]
 pub struct NaiveRec {
     pub name: Vec<u8>,
+    #[allow(dead_code)]
     pub desc: Vec<u8>,
     pub seq: Vec<u8>,
     /// offset of the byte that follows the definition line
@@ -129,15 +130,25 @@ impl NaiveRec {
     pub fn has_blank(&self) -> bool {
         self.lines.iter().any(|l| l.0 == 0)
     }
-    /// faidx regularity without blank lines: all lines but the last have the geometry of the first,
-    /// the last has at most as many bases (its terminator is free).
-    pub fn strictly_regular(&self) -> bool {
+    /// Geometry is well defined (faidx semantics, no blank lines): all lines but the last have the
+    /// geometry of the first, the last has at most as many bases (its terminator is free).
+    pub fn regular(&self) -> bool {
         if self.lines.is_empty() || self.has_blank() {
             return false;
         }
         let first = self.lines[0];
         let n = self.lines.len();
         self.lines[..n - 1].iter().all(|l| *l == first) && self.lines[n - 1].0 <= first.0
+    }
+    /// Regular, and the last line's terminator is not longer than the others' (an LF file whose
+    /// last line ends in CRLF may be refused: the statement names short last lines only).
+    pub fn strictly_regular(&self) -> bool {
+        if !self.regular() {
+            return false;
+        }
+        let first = self.lines[0];
+        let last = self.lines[self.lines.len() - 1];
+        last.1 - last.0 <= first.1 - first.0
     }
     /// regular once *trailing* blank lines are ignored
     pub fn regular_with_trailing_blanks(&self) -> bool {
@@ -146,7 +157,7 @@ impl NaiveRec {
             l.pop();
         }
         let r = NaiveRec { lines: l, ..self.clone() };
-        r.strictly_regular()
+        r.regular()
     }
 }
 
